@@ -275,12 +275,15 @@ def field_attrs(sc, f, fallible, g=None):
     named_t = sc.t_kind == "named"
     if f.desig == "ghost":
         gk = f.ghost
-        if sc.t_kind == "unit" or True:
-            if gk["split"]:
-                out.append(Instr("ghost_owned", "ghost", container=None, action=const_of(f.ty, gk["owned"]), braced=True))
-                out.append(Instr("ghost_ref", "ghost", container=None, action=const_of(f.ty, gk["ref"]), braced=True))
-            else:
-                out.append(Instr("ghost", "ghost", container=None, action=const_of(f.ty, gk["owned"]), braced=(gk["owned"] % 3 != 0)))
+        # every other ghost is written in its dedicated form (`T| {..}`): same meaning with a single counterpart
+        ded = "T" if (sc.t_kind != "bare_tuple" and gk["owned"] % 2 == 1) else None
+        if gk["split"]:
+            out.append(Instr("ghost_owned", "ghost", container=ded, action=const_of(f.ty, gk["owned"]), braced=True))
+            out.append(Instr("ghost_ref", "ghost", container=ded, action=const_of(f.ty, gk["ref"]), braced=True))
+            if gk["owned"] % 4 >= 2:
+                out.reverse()
+        else:
+            out.append(Instr("ghost", "ghost", container=ded, action=const_of(f.ty, gk["owned"]), braced=(gk["owned"] % 3 != 0 or ded is not None)))
         return out
     m = _member_txt(f)
     if f.desig == "as_type":
@@ -436,11 +439,12 @@ def render_module(sc, g, fallible, draws, nostd=False):
     # type-level ghosts for T-only fields
     only = [t for t in sc.tf if t.src is None and t.ghost]
     if only:
+        dedg = "T" if (sc.t_kind != "bare_tuple" and only[0].ghost["owned"] % 2 == 1) else None
         if any(t.ghost["split"] for t in only):
-            it.attrs.append(Instr("ghosts_owned", "ghosts", container=None, entries=[dict(path=None, ident=t.name, action=const_of(t.ty, t.ghost["owned"])) for t in only]))
-            it.attrs.append(Instr("ghosts_ref", "ghosts", container=None, entries=[dict(path=None, ident=t.name, action=const_of(t.ty, t.ghost["ref"])) for t in only]))
+            it.attrs.append(Instr("ghosts_owned", "ghosts", container=dedg, entries=[dict(path=None, ident=t.name, action=const_of(t.ty, t.ghost["owned"])) for t in only]))
+            it.attrs.append(Instr("ghosts_ref", "ghosts", container=dedg, entries=[dict(path=None, ident=t.name, action=const_of(t.ty, t.ghost["ref"])) for t in only]))
         else:
-            it.attrs.append(Instr("ghosts", "ghosts", container=None, entries=[dict(path=None, ident=t.name, action=const_of(t.ty, t.ghost["owned"])) for t in only]))
+            it.attrs.append(Instr("ghosts", "ghosts", container=dedg, entries=[dict(path=None, ident=t.name, action=const_of(t.ty, t.ghost["owned"])) for t in only]))
     for f in sc.sf:
         it.fields.append(Field(f.name if sc.s_shape == "named" else None, f.ty, field_attrs(sc, f, fallible)))
     derive_src = it.render(derive="#[derive(Clone, Debug, PartialEq, o2o::o2o)]" if not nostd else "#[derive(Clone, Debug, PartialEq, o2o_macros::o2o)]")
